@@ -118,6 +118,11 @@ def rrule_text(rule):
     (explicit or implicit plus sign, parameter order, letter case)."""
     t = _rrule_text(rule)
     v = RRULE_SPELLING[0]
+    if v == 4 and rule[0] == "J":
+        # Jn never counts 29 February: before it the n-th day of the year,
+        # after it the (366 - n)-th day from the END of the year
+        n = rule[1]
+        return "FREQ=YEARLY;BYYEARDAY=%d" % (n if n < 60 else -(366 - n))
     if v == 1:
         t = t.replace("BYDAY=+", "BYDAY=")
     elif v == 2:
@@ -340,7 +345,8 @@ def generate(cls, rng):
               # first onset year: 1990, or (rarely) 9990, so that the probed
               # years run up to 9999, the last one a datetime can hold
               y0=9990 if rng.random() < 0.04 else 1990,
-              rrule_spelling=rng.choice([0, 0, 0, 1, 2, 3]),
+              rrule_spelling=rng.choice([0, 0, 0, 1, 2, 3, 4, 4]),
+              dup_tzid=rng.random() < 0.06,
               prop_order=rng.choice([0, 0, 0, 1, 2, 3, 4, 5]),
               calendars=rng.choice(["one", "one", "one", "each"]),
               fwd=rng.choice([0, 0, 0, 6, rng.randrange(7)]),
@@ -426,6 +432,9 @@ def build_text(sc):
     if sc.get("multi"):
         zones.insert(0 if sc["daylight_first"] else 1,
                      (id2, sc["other"], sc["other_form"]))
+    if sc.get("dup_tzid") and not sc.get("multi"):
+        # the same zone defined twice (two merged exports): still ONE zone
+        zones = zones * 2
     for tzid, spec, form in zones:
         lines += vtimezone(spec, tzid, form, sc["daylight_first"],
                            sc["nyears"], sc.get("fold_width"),
